@@ -14,6 +14,10 @@ def has(case, extra):
 
 
 PREDICATES = {
+    # a gene function without a product whose description has the shape 'name: text' (what the genefunctions tools write)
+    "C10-F3": lambda case, clause: has(case, "smcog-function") and clause in ("genbank-description-differs", "json-description-differs"),
+    # a spliced gene with one exon on either side of the few bases an origin-spanning region leaves out
+    "C12-F4": lambda case, clause: case.get("sideload") == "around-intron" and clause in ("feature-missing-or-shifted", "region-genes-differ"),
     # a gene crossing the origin (start + length beyond the 36 bases of the gap-search ring) inside an origin-spanning search area
     "C15-F1": lambda case, clause: case.get("kind") == "gap" and case.get("area") == "cross"
     and any(g[0] + g[1] > 36 and g[1] > 2 * case.get("overlap", 0) for g in case.get("genes", ()))
